@@ -42,13 +42,16 @@ func (cache *H264Cache) CachePack(pack Pack) bool {
 	cache.l.Lock()
 	defer cache.l.Unlock()
 
-	if sps { // 新序列参数,重置图像参数和 GopCache
+	// 聚合包可能同时携带 SPS、PPS 甚至关键帧，分别记录
+	if sps { // 新序列参数
 		cache.sps = rtppack
-		return false
 	}
 
-	if pps { // 新图像参数，重置 GopCahce
+	if pps { // 新图像参数
 		cache.pps = rtppack
+	}
+
+	if (sps || pps) && !islice { // 仅含参数集的包不进入 GopCache
 		return false
 	}
 
@@ -84,7 +87,7 @@ func (cache *H264Cache) PushTo(q *queue.SyncQueue) int {
 		q.Queue().Push(cache.sps)
 		bytes += cache.sps.Size()
 	}
-	if cache.pps != nil {
+	if cache.pps != nil && cache.pps != cache.sps { // 同一个聚合包只发送一次
 		q.Queue().Push(cache.pps)
 		bytes += cache.pps.Size()
 	}
@@ -92,8 +95,11 @@ func (cache *H264Cache) PushTo(q *queue.SyncQueue) int {
 	// 如果必要，写 GopCache
 	if cache.cacheGop {
 		packs := cache.gop.Elems()
-		q.Queue().PushN(packs) // 启动阶段调用，无需加锁
 		for _, p := range packs {
+			if rp := p.(*rtp.Packet); rp == cache.sps || rp == cache.pps {
+				continue // 已作为参数集包发送
+			}
+			q.Queue().Push(p) // 启动阶段调用，无需加锁
 			bytes += p.(Pack).Size()
 		}
 	}
